@@ -59,19 +59,37 @@ class InfraError(Exception):
 # ----------------------------------------------------------------------------------------
 
 def sx(x: Any) -> str:
-    """Serialise nested lists / ints / bools / atoms into the wire format."""
-    if isinstance(x, bool):
-        return "true" if x else "false"
-    if isinstance(x, int):
-        return str(x)
-    if isinstance(x, str):
-        assert x and not any(c in x for c in " ()\t\n"), f"bad atom {x!r}"
-        return x
-    if x is None:
-        return "none"
-    if isinstance(x, (list, tuple)):
-        return "(" + " ".join(sx(e) for e in x) + ")"
-    raise TypeError(f"cannot serialise {type(x)}")
+    """Serialise nested lists / ints / bools / atoms into the wire format (iteratively: a change to the
+    library may produce programs nested far deeper than the interpreter's recursion limit)."""
+    out: list[str] = []
+    stack: list[Any] = [x]
+    CLOSE = object()
+    SPACE = object()
+    while stack:
+        y = stack.pop()
+        if y is CLOSE:
+            out.append(")")
+        elif y is SPACE:
+            out.append(" ")
+        elif isinstance(y, bool):
+            out.append("true" if y else "false")
+        elif isinstance(y, int):
+            out.append(str(y))
+        elif isinstance(y, str):
+            assert y and not any(c in y for c in " ()\t\n"), f"bad atom {y!r}"
+            out.append(y)
+        elif y is None:
+            out.append("none")
+        elif isinstance(y, (list, tuple)):
+            out.append("(")
+            stack.append(CLOSE)
+            for i in range(len(y) - 1, -1, -1):
+                stack.append(y[i])
+                if i > 0:
+                    stack.append(SPACE)
+        else:
+            raise TypeError(f"cannot serialise {type(y)}")
+    return "".join(out)
 
 
 def parse_sx(s: str) -> Any:
@@ -438,7 +456,22 @@ def run_check(prop: str, tier: str, seed: int, module) -> int:
             au["leanchecker"] = "ok" if ok_lc else "FAILED: " + out_lc
             if not ok_lc:
                 au["bad"].append(("leanchecker", out_lc[-300:]))
-        module.run(h)
+        try:
+            module.run(h)
+        except InfraError:
+            raise
+        except Exception:  # noqa: BLE001
+            # the harness itself tripped over something the library did (never seen on the unchanged tree).
+            # What was established before is still true: judge the lines queued so far; with no failing
+            # input among them this stays an infrastructure error (exit 2), otherwise they are reported.
+            tb = traceback.format_exc()
+            h.flush()
+            known = load_findings(prop)
+            if not any(not any(match_finding(f, fl) for f in known) for fl in h.failures):
+                print(tb, file=sys.stderr)
+                print(f"INFRA-ERROR {prop}: harness exception", file=sys.stderr)
+                return 2
+            h.notes.append("the run was cut short by a harness exception: " + tb.strip().splitlines()[-1][:200])
         h.flush()
         # a broken correspondence with no failing input yet: widen the search
         if h.differs and not h.failures and hasattr(module, "search"):
